@@ -18,6 +18,7 @@ type Env struct {
 	cur, old *State
 	names    map[string]val
 	atHeader *ssa.BasicBlock
+	atBlock  *ssa.BasicBlock // program point for resolving reassigned locals
 	callee   *target
 	pkg      *types.Package
 	own      bool // evaluating the verified function's own contract (SSA locals visible)
@@ -66,6 +67,9 @@ func (e *Env) bindCallArgs(tgt *target, recv *val, args []val) {
 	}
 	for i, a := range args {
 		e.names[fmt.Sprintf("arg%d", i)] = a
+		if e.own {
+			continue // caller-side assertion: the caller's own locals keep their names, arguments are argN
+		}
 		if i < len(tgt.params) && tgt.params[i] != "" && tgt.params[i] != "_" {
 			e.names[tgt.params[i]] = a
 		}
@@ -488,6 +492,46 @@ func (x *Exec) localByName(e *Env, name string) (val, bool) {
 		return val{x.vals[cands[0]], cands[0].Type(), vc.sortOf(cands[0].Type())}, true
 	}
 	if len(cands) > 1 {
+		// several definitions (the variable is reassigned): the latest one that dominates the current point
+		at := e.atBlock
+		if at == nil {
+			at = e.atHeader
+		}
+		if at != nil {
+			var best ssa.Value
+			for _, c := range cands {
+				in, ok := c.(ssa.Instruction)
+				if !ok {
+					continue
+				}
+				cb := in.Block()
+				if cb == nil || !(cb == at || cb.Dominates(at)) {
+					continue
+				}
+				if best == nil {
+					best = c
+					continue
+				}
+				bb := best.(ssa.Instruction).Block()
+				if bb == cb {
+					// later instruction in the same block wins
+					for _, i2 := range cb.Instrs {
+						if i2 == best.(ssa.Instruction) {
+							best = c
+							break
+						}
+						if i2 == in {
+							break
+						}
+					}
+				} else if bb.Dominates(cb) {
+					best = c
+				}
+			}
+			if best != nil {
+				return val{x.vals[best], best.Type(), vc.sortOf(best.Type())}, true
+			}
+		}
 		e.fail("local %q is ambiguous at this point (%d SSA values)", name, len(cands))
 	}
 	return val{}, false
@@ -774,6 +818,26 @@ func (e *Env) callExpr(c *CExpr) val {
 		}
 		t := e.resolveType(c.Args[0].Name)
 		return val{vc.zero(t), t, vc.sortOf(t)}
+	case "typed":
+		// typed(x, "T"): x is a whole allocated object of struct type T
+		argn(2)
+		a := e.eval(c.Args[0])
+		if c.Args[1].Op != "str" {
+			e.fail("typed needs a type name string")
+		}
+		t := e.resolveType(c.Args[1].Name)
+		vc.regComp("RType", "(Array Int Int)")
+		e.x.g.needClosure = true
+		return boolVal(eq(sel(vc.get(e.cur, "RType"), a.t), vc.structTID(t)))
+	case "frozen":
+		argn(1)
+		a := e.eval(c.Args[0])
+		vc.regComp("Frozen", "(Array Int Bool)")
+		return boolVal(sel(vc.get(e.cur, "Frozen"), app("s_arr", a.t)))
+	case "spawns":
+		argn(0)
+		vc.regComp("Spawns", sInt)
+		return intVal(vc.get(e.cur, "Spawns"))
 	case "calls":
 		argn(1)
 		a := e.eval(c.Args[0])
